@@ -64,14 +64,26 @@ def o_split(ctx, case):
     ctx.begin("split", case)
     M = pc.pm(name)
     acc_raw, acc_full = pc.one12(name), pc.one12(name)
+    raws = []
     for a, b, sq, sp in case["pairs"]:
         Q = pc.lib_pt(name, "G2", pc.kG(curve, "G2", b), scale=pc.unscale(sq), inf_rep=INF_G2[(a + b) % 3])
         P = pc.lib_pt(name, "G1", pc.kG(curve, "G1", a), scale=pc.unscale(sp), inf_rep=INF_G1[(a + b) % 3])
-        acc_raw = acc_raw * M.pairing(Q, P, final_exponentiate=False)
+        raws.append(M.pairing(Q, P, final_exponentiate=False))
+        acc_raw = acc_raw * raws[-1]
         acc_full = acc_full * M.pairing(Q, P)
     got = M.final_exponentiate(acc_raw)
     ctx.check(pc.coeffs(got) == pc.coeffs(acc_full), "split", "value", case,
               f"{name}: final_exponentiate(prod of {len(case['pairs'])} raw Miller values) != prod of pairings")
+    # the same product accumulated with `*=` starting from the first stored Miller value (how a caller folds a
+    # list): the stored values must keep their values, and the result must be the same
+    before = [pc.coeffs(m) for m in raws]
+    prod = raws[0]
+    for m in raws[1:]:
+        prod *= m
+    ctx.check([pc.coeffs(m) for m in raws] == before, "split", "operand_changed_by_augmented_multiply", case,
+              f"{name}: a stored Miller value changed when a product was accumulated with *=")
+    ctx.check(pc.coeffs(M.final_exponentiate(prod)) == pc.coeffs(acc_full), "split", "value_augmented", case,
+              f"{name}: final_exponentiate of the *= product != prod of pairings")
     ctx.label(f"split:{name}")
     if len(case["pairs"]) >= 2:
         ctx.label("split:n>=2")
